@@ -32,6 +32,7 @@ type COp struct {
 	TM   bool   `json:"tm,omitempty"`   // the payload is a Taggable map: data[0] as []byte and as string under hmac tags, data[1] likewise under encrypt tags
 	EvID int    `json:"evid,omitempty"` // event id "ev<n>", 0 = ""
 	Data []int  `json:"data,omitempty"` // data ids of the five filtered fields
+	Sh   string `json:"sh,omitempty"`   // callback cases: shape of the payload - "mid" (a Taggable field between other fields), "top" (the payload itself a Taggable struct), "map" (a Taggable map)
 }
 type CCase struct {
 	ID        int    `json:"id"`
@@ -42,7 +43,7 @@ type CCase struct {
 	Alias     bool   `json:"alias,omitempty"`     // further filters share the initial salt / info slices; they are emitted as the cases with the next ids
 	NF        int    `json:"nf,omitempty"`        // number of filters of an aliasing case (default 2)
 	ViaRotate bool   `json:"viarotate,omitempty"` // the shared slices are handed to the filters through Rotate(WithSalt(s), WithInfo(i)) instead of the exported fields
-	CB        bool   `json:"cb,omitempty"`        // one event with per-event wrapper info whose Tags() callback rotates the filter
+	CB        bool   `json:"cb,omitempty"`        // ops[0] is an event whose own Tags() callback rotates the filter as ops[1] says (Rotate or a rotation payload), part way through the event
 }
 
 type CPlain struct {
@@ -63,42 +64,260 @@ type CEwi struct {
 	info []byte
 }
 
-// CEwiCB: per-event wrapper info without salt / info, and a Tags() callback that rotates the filter: the deterministic
-// stand-in for a rotation scheduled between the head of Process and the first value
-type CEwiCB struct {
+// ---------- events that rotate the filter from their own Tags() callback ----------
+// The filter calls Tags() of a Taggable part way through an event: a rotation made there is the deterministic stand-in for a
+// rotation scheduled between the head of Process and a value, or between two values, of ONE event.  Shapes: a Taggable map field
+// between other fields (values before it are produced before the rotation, its own entries and the later fields after it), the
+// payload itself a Taggable struct, the payload itself a Taggable map (everything after the rotation) - each with and without
+// per-event wrapper info.
+var cbHook func()
+
+func fireCB() {
+	if h := cbHook; h != nil {
+		cbHook = nil
+		h()
+	}
+}
+
+var cbMapTags = []encrypt.PointerTag{
+	{Pointer: "/h", Classification: encrypt.SensitiveClassification, Filter: encrypt.HmacSha256Operation},
+	{Pointer: "/e", Classification: encrypt.SensitiveClassification}}
+
+type CBMap map[string]interface{}
+
+func (t CBMap) Tags() ([]encrypt.PointerTag, error) { fireCB(); return cbMapTags, nil }
+
+type CBMapEwi map[string]interface{}
+
+func (t CBMapEwi) Tags() ([]encrypt.PointerTag, error) { fireCB(); return cbMapTags, nil }
+func (t CBMapEwi) EventId() string                     { s, _ := t["__id"].(string); return s }
+func (t CBMapEwi) HmacSalt() []byte                    { b, _ := t["__salt"].([]byte); return b }
+func (t CBMapEwi) HmacInfo() []byte                    { b, _ := t["__info"].([]byte); return b }
+
+type CBMid struct {
 	H1 string `class:"sensitive,hmac-sha256"`
-	H2 []byte `class:"secret,hmac-sha256"`
+	E1 string `class:"sensitive"`
+	T  CBMap
+	H2 []byte   `class:"secret,hmac-sha256"`
+	HS []string `class:"sensitive,hmac-sha256"`
+	E2 string   `class:"secret,encrypt"`
+}
+type CBMidEwi struct {
+	H1   string `class:"sensitive,hmac-sha256"`
+	E1   string `class:"sensitive"`
+	T    CBMap
+	H2   []byte   `class:"secret,hmac-sha256"`
+	HS   []string `class:"sensitive,hmac-sha256"`
+	E2   string   `class:"secret,encrypt"`
+	id   string
+	salt []byte
+	info []byte
 }
 
-var callbackFilter *encrypt.Filter
+func (p *CBMidEwi) EventId() string  { return p.id }
+func (p *CBMidEwi) HmacSalt() []byte { return p.salt }
+func (p *CBMidEwi) HmacInfo() []byte { return p.info }
 
-func (p *CEwiCB) EventId() string  { return "Ev-1" }
-func (p *CEwiCB) HmacSalt() []byte { return nil }
-func (p *CEwiCB) HmacInfo() []byte { return nil }
-func (p *CEwiCB) Tags() ([]encrypt.PointerTag, error) {
-	callbackFilter.Rotate(encrypt.WithWrapper(cWrapper(2)), encrypt.WithSalt(poolBytes("salt", 2)), encrypt.WithInfo(poolBytes("info", 2)))
-	return nil, nil
+type CBTop struct {
+	H1 string   `class:"sensitive,hmac-sha256"`
+	E1 string   `class:"sensitive"`
+	H2 []byte   `class:"secret,hmac-sha256"`
+	HS []string `class:"sensitive,hmac-sha256"`
+	E2 string   `class:"secret,encrypt"`
 }
 
-func callbackPart(c CCase, keys []keyCand) []string {
-	if !c.CB {
-		return nil
-	}
-	callbackFilter = &encrypt.Filter{Wrapper: cWrapper(1), HmacSalt: poolBytes("salt", 1), HmacInfo: poolBytes("info", 1)}
-	ev, err := callbackFilter.Process(context.Background(), &el.Event{Type: "t", CreatedAt: fixedTime, Payload: &CEwiCB{H1: "data", H2: []byte("data")}})
-	if err != nil || ev == nil {
-		return []string{"(0%N, 1%N, 2%N)"}
-	}
-	q := ev.Payload.(*CEwiCB)
-	var out []string
-	for _, s := range []string{q.H1, string(q.H2)} {
-		if _, a := attributeHmac(s, []byte("data"), 0, keys, false); a.ok {
-			out = append(out, fmt.Sprintf("(%s, %s, %s)", hc.N(a.kid/1000), hc.N(a.sid), hc.N(a.iid)))
-		} else {
-			out = append(out, "(0%N, 1%N, 2%N)")
+func (p *CBTop) Tags() ([]encrypt.PointerTag, error) { fireCB(); return nil, nil }
+
+type CBTopEwi struct {
+	H1   string   `class:"sensitive,hmac-sha256"`
+	E1   string   `class:"sensitive"`
+	H2   []byte   `class:"secret,hmac-sha256"`
+	HS   []string `class:"sensitive,hmac-sha256"`
+	E2   string   `class:"secret,encrypt"`
+	id   string
+	salt []byte
+	info []byte
+}
+
+func (p *CBTopEwi) Tags() ([]encrypt.PointerTag, error) { fireCB(); return nil, nil }
+func (p *CBTopEwi) EventId() string                     { return p.id }
+func (p *CBTopEwi) HmacSalt() []byte                    { return p.salt }
+func (p *CBTopEwi) HmacInfo() []byte                    { return p.info }
+
+type cbField struct {
+	hmac bool
+	data int
+}
+
+// the payload of a callback event, and which datum / operation each of its values carries, split at the callback
+func mkCBPayload(o COp) (p interface{}, pre, post []cbField) {
+	d := func(i int) []byte { return append([]byte{}, dataPool[o.Data[i%len(o.Data)]]...) }
+	di := func(i int) int { return o.Data[i%len(o.Data)] }
+	id := evID(o.EvID)
+	salt, info := poolBytes("salt", o.S), poolBytes("info", o.I)
+	switch o.Sh {
+	case "map":
+		post = []cbField{{true, di(0)}, {false, di(1)}}
+		if o.EWI {
+			m := CBMapEwi{"h": string(d(0)), "e": string(d(1)), "__id": id}
+			if salt != nil {
+				m["__salt"] = salt
+			}
+			if info != nil {
+				m["__info"] = info
+			}
+			return m, nil, post
 		}
+		return CBMap{"h": string(d(0)), "e": string(d(1))}, nil, post
+	case "mid":
+		pre = []cbField{{true, di(0)}, {false, di(1)}}
+		post = []cbField{{true, di(2)}, {false, di(3)}, {true, di(4)}, {true, di(0)}, {true, di(2)}, {false, di(1)}}
+		t := CBMap{"h": string(d(2)), "e": string(d(3))}
+		if o.EWI {
+			return &CBMidEwi{H1: string(d(0)), E1: string(d(1)), T: t, H2: d(4), HS: []string{string(d(0)), string(d(2))}, E2: string(d(1)), id: id, salt: salt, info: info}, pre, post
+		}
+		return &CBMid{H1: string(d(0)), E1: string(d(1)), T: t, H2: d(4), HS: []string{string(d(0)), string(d(2))}, E2: string(d(1))}, pre, post
+	default: // "top"
+		post = []cbField{{true, di(0)}, {false, di(1)}, {true, di(4)}, {true, di(0)}, {true, di(2)}, {false, di(1)}}
+		if o.EWI {
+			return &CBTopEwi{H1: string(d(0)), E1: string(d(1)), H2: d(4), HS: []string{string(d(0)), string(d(2))}, E2: string(d(1)), id: id, salt: salt, info: info}, nil, post
+		}
+		return &CBTop{H1: string(d(0)), E1: string(d(1)), H2: d(4), HS: []string{string(d(0)), string(d(2))}, E2: string(d(1))}, nil, post
 	}
-	return out
+}
+
+func cbOutFields(p interface{}) []string {
+	mapVals := func(m map[string]interface{}) []string {
+		out := make([]string, 2)
+		for i, k := range []string{"h", "e"} {
+			switch v := m[k].(type) {
+			case string:
+				out[i] = v
+			case []byte:
+				out[i] = string(v)
+			}
+		}
+		return out
+	}
+	switch x := p.(type) {
+	case CBMap:
+		return mapVals(x)
+	case CBMapEwi:
+		return mapVals(x)
+	case *CBMid:
+		return append(append([]string{x.H1, x.E1}, mapVals(x.T)...), append(append([]string{string(x.H2)}, x.HS...), x.E2)...)
+	case *CBMidEwi:
+		return append(append([]string{x.H1, x.E1}, mapVals(x.T)...), append(append([]string{string(x.H2)}, x.HS...), x.E2)...)
+	case *CBTop:
+		return append(append([]string{x.H1, x.E1, string(x.H2)}, x.HS...), x.E2)
+	case *CBTopEwi:
+		return append(append([]string{x.H1, x.E1, string(x.H2)}, x.HS...), x.E2)
+	}
+	return nil
+}
+
+// the event and the rotation of a callback case (a case without operations is the first one ever recorded: an event with wrapper
+// info and nil salt / info, the payload a Taggable struct, rotated from (w1, salt-1, info-1) to (w2, salt-2, info-2))
+func cbOps(c CCase) (COp, COp) {
+	if len(c.Ops) < 2 {
+		return COp{K: "event", EWI: true, EvID: 1, S: -1, I: -1, Sh: "top", Data: []int{1, 1, 1, 1, 1}}, COp{K: "rotate", W: 2, S: 2, I: 2}
+	}
+	return c.Ops[0], c.Ops[1]
+}
+
+func execCB(c CCase, cd cands) cresult {
+	var res cresult
+	ctx := context.Background()
+	ev, rot := cbOps(c)
+	if len(ev.Data) == 0 {
+		ev.Data = []int{1, 1, 1, 1, 1}
+	}
+	f := &encrypt.Filter{Wrapper: cWrapper(c.Init.W), HmacSalt: poolBytes("salt", c.Init.S), HmacInfo: poolBytes("info", c.Init.I)}
+	p, pre, post := mkCBPayload(ev)
+	fired := false
+	cbHook = func() {
+		fired = true
+		if rot.K == "rotpayload" {
+			_, _ = f.Process(ctx, &el.Event{Type: "t", CreatedAt: fixedTime, Payload: &Rot{W: cWrapper(rot.W), Salt: poolBytes("salt", rot.S), Info: poolBytes("info", rot.I)}})
+			return
+		}
+		f.Rotate(rotOpts(rot)...)
+	}
+	valsLit := func(fs []cbField) string {
+		items := make([]string, len(fs))
+		for i, x := range fs {
+			cop := "CEnc []"
+			if x.hmac {
+				cop = "CHmac"
+			}
+			items[i] = fmt.Sprintf("(%s, %s)", cop, bstrLit2(x.data))
+		}
+		return hc.List(items)
+	}
+	attribute := func(what string, fs []cbField, vals []string) string {
+		items := make([]string, len(vals))
+		for i, s := range vals {
+			if i >= len(fs) {
+				items[i] = "VUnknown"
+				continue
+			}
+			orig := dataPool[fs[i].data]
+			if fs[i].hmac {
+				var a attribution
+				items[i], a = attributeHmac(s, orig, fs[i].data, cd, false)
+				res.log = append(res.log, fmt.Sprintf("%s value %d: hmac under key %d salt %d info %d (found %v)", what, i, a.kid, a.sid, a.iid, a.ok))
+			} else {
+				items[i] = attributeEnc(s, orig, cd.keys, false)
+				res.log = append(res.log, fmt.Sprintf("%s value %d: %s", what, i, shortItem(items[i])))
+			}
+		}
+		return hc.List(items)
+	}
+	after := []cbField{{false, 1}, {false, 1}, {true, 1}, {true, 1}, {false, 1}}
+	obs := ""
+	func() {
+		defer func() {
+			if r := recover(); r != nil {
+				obs = "CbPanic"
+				res.panics = append(res.panics, fmt.Sprintf("case %d (callback): %v", c.ID, r))
+			}
+		}()
+		out, err := f.Process(ctx, &el.Event{Type: "t", CreatedAt: fixedTime, Payload: p})
+		cbHook = nil
+		if err != nil || out == nil {
+			obs = "CbErr"
+			res.log = append(res.log, fmt.Sprintf("callback event: error %v", err))
+			return
+		}
+		vals := cbOutFields(out.Payload)
+		if len(vals) != len(pre)+len(post) {
+			obs = "(CbValues [] [] [])"
+			return
+		}
+		res.log = append(res.log, fmt.Sprintf("callback fired: %v", fired))
+		o1 := attribute("before the callback:", pre, vals[:len(pre)])
+		o2 := attribute("after the callback:", post, vals[len(pre):])
+		o3 := "[]"
+		if nx, err := f.Process(ctx, &el.Event{Type: "t", CreatedAt: fixedTime, Payload: &CPlain{E1: string(dataPool[1]), E2: append([]byte{}, dataPool[1]...), H1: string(dataPool[1]), H2: append([]byte{}, dataPool[1]...), E3: string(dataPool[1])}}); err == nil && nx != nil {
+			o3 = attribute("next event:", after, outFields(nx.Payload))
+		}
+		obs = fmt.Sprintf("(CbValues %s %s %s)", o1, o2, o3)
+		res.nontriv = true
+	}()
+	cbHook = nil
+	ewi := "None"
+	if ev.EWI {
+		id := "[]"
+		if ev.EvID > 0 {
+			id = "[" + hc.N(canonEv(ev.EvID)) + "]"
+		}
+		ewi = fmt.Sprintf("(Some (%s, %s, %s))", id, optBstrLit(ev.S), optBstrLit(ev.I))
+	}
+	cb := fmt.Sprintf("{| cb_init := {| f_wrap := %s; f_salt := %s; f_info := %s |}; cb_ewi := %s;\n      cb_pre := %s; cb_rot := (%s, %s, %s);\n      cb_post := %s;\n      cb_after := %s;\n      cb_obs := %s |}",
+		optKeyLit(c.Init.W), optBstrLit(c.Init.S), optBstrLit(c.Init.I), ewi, valsLit(pre), optKeyLit(rot.W), optBstrLit(rot.S), optBstrLit(rot.I), valsLit(post), valsLit(after), obs)
+	res.lit = fmt.Sprintf("{| cc_id := %s; cc_init := {| f_wrap := %s; f_salt := %s; f_info := %s |};\n   cc_steps := [];\n   cc_conc := []; cc_cbs := [%s]; cc_caller := true |}",
+		hc.N(c.ID), optKeyLit(c.Init.W), optBstrLit(c.Init.S), optBstrLit(c.Init.I), cb)
+	return res
 }
 
 // CSlices: slice-typed fields under hmac and under encrypt: every ELEMENT is a value of its own
@@ -124,21 +343,63 @@ func (p *CEwi) EventId() string  { return p.id }
 func (p *CEwi) HmacSalt() []byte { return p.salt }
 func (p *CEwi) HmacInfo() []byte { return p.info }
 
-var cWrappers = []string{"", "w1", "w2", "w3", "w4", "w5", "w6", "w7"}
+var cWrappers = []string{"", "w1", "w2", "w3", "w4", "w5", "w6", "w7", "w8", "w9", "w10", "w11", "w12", "w13", "w14", "w15"}
 
 // wrapper 5 reports the KEY ID of wrapper 1 but holds a different key (a rotation may keep the id)
 // wrappers 6 and 7 have no key id at all (the empty id), and different keys
+// wrappers 8 .. 15 have key ids of 1, 63, 64, 65, 127, 128, 129 and 1100 bytes, each a prefix of the next
 var cKeyIDs = map[int]string{5: "w1", 6: "", 7: ""}
 
-const nWrappers = 7
+const nWrappers = 15
 
-// -1 nil, 0 empty (non-nil), 1..3 values of one length, 4 a shorter and 5 a longer one
+// The LENGTH alphabet of everything that is bytes (salt, info, event id, key id, plaintext): besides empty and a few bytes, one
+// byte, the SHA-256 block size and twice the block size with their neighbours, and more than a thousand bytes.  The values of
+// one kind are prefixes of ONE stream: any two of them of at least 64 (128) bytes share their first 64 (128) bytes, so whoever looks
+// at a prefix only cannot tell them apart - a rotation from one to the other must still change every digest.
+var lenAlphabet = []int{1, 63, 64, 65, 127, 128, 129, 1100}
+
+var (
+	streams   = map[string][]byte{}
+	streamsMu sync.Mutex
+)
+
+// n bytes of the stream of a kind: none of them zero (an HKDF salt is a zero-padded HMAC key); printable when text is set
+func stream(kind string, n int, text bool) []byte {
+	streamsMu.Lock()
+	defer streamsMu.Unlock()
+	st := streams[kind]
+	for ctr := len(st) / sha256.Size; len(st) < n; ctr++ {
+		h := sha256.Sum256([]byte(fmt.Sprintf("verif-stream-%s-%d", kind, ctr)))
+		for _, b := range h {
+			if text {
+				b = "abcdefghijklmnopqrstuvwxyzABCDEFGHIJKLMNOPQRSTUVWXYZ0123456789-_"[b%64]
+			} else if b == 0 {
+				b = 1
+			}
+			st = append(st, b)
+		}
+	}
+	streams[kind] = st
+	return append([]byte{}, st[:n]...)
+}
+
+func init() {
+	for j, n := range lenAlphabet {
+		cKeyIDs[8+j] = string(stream("keyid", n, true))
+		evIDs = append(evIDs, string(stream("evid", n, true)))
+	}
+}
+
+// -1 nil, 0 empty (non-nil), 1..3 values of one length, 4 a shorter and 5 a longer one, 6 a look-alike of 1,
+// 7 .. 14 the length alphabet (1, 63, 64, 65, 127, 128, 129, 1100 bytes of one stream)
 func poolBytes(kind string, i int) []byte {
 	switch {
 	case i < 0:
 		return nil
 	case i == 0:
 		return []byte{}
+	case i >= 7 && i < 7+len(lenAlphabet):
+		return stream(kind, lenAlphabet[i-7], false)
 	case i == 4:
 		return []byte(kind[:1] + "4")
 	case i == 5:
@@ -154,7 +415,7 @@ func poolBytes(kind string, i int) []byte {
 	return []byte(fmt.Sprintf("%s-%d", kind, i))
 }
 
-const poolMax = 6
+const poolMax = 14
 
 var dataPool [][]byte
 
@@ -164,6 +425,10 @@ func initDataPool() {
 		long[i] = byte(i * 7)
 	}
 	dataPool = [][]byte{{}, []byte("a"), {0xff, 0xfe, 0x00, 0x80}, long, []byte("h\xc3\xa9llo w\xc3\xb6rld"), []byte("[REDACTED]"), []byte("encrypted:Zm9v"), []byte("hmac-sha256:"), {0}, []byte("payload-9")}
+	// plaintexts of 63, 64, 65, 127, 128, 129 and 1100 bytes (1 byte is there), each a prefix of the next
+	for _, n := range lenAlphabet[1:] {
+		dataPool = append(dataPool, stream("data", n, false))
+	}
 }
 
 func cWrapper(i int) wrapping.Wrapper {
@@ -230,68 +495,99 @@ func evID(i int) string {
 
 var derivedKeyCache = map[int][]byte{}
 
-// candidate keys: the wrappers and what NewEventWrapper derives from each for the given event ids (all of them when ids is nil)
-func keyCandsFor(ids []int) []keyCand {
-	if ids == nil {
-		for e := 1; e < len(evIDs); e++ {
-			ids = append(ids, e)
-		}
-	}
-	var out []keyCand
-	for w := 1; w <= nWrappers; w++ {
-		out = append(out, keyCand{w, keyBytes(cWrappers[w])})
-		for _, e := range ids {
-			if canonEv(e) != e {
-				continue
-			}
-			id := w*1000 + e
-			hkdfCacheMu.Lock()
-			k, ok := derivedKeyCache[id]
-			if !ok {
-				k = deriveEventKey(keyBytes(cWrappers[w]), evID(e))
-				derivedKeyCache[id] = k
-			}
-			hkdfCacheMu.Unlock()
-			out = append(out, keyCand{id, k})
-		}
-	}
-	return out
+// The candidates a value of a case is attributed to: every wrapper's key; the per-event keys derived from the wrappers the case
+// uses (and 1 .. 3) for every event id (those the case uses first, so that a value under the key of ANOTHER id is named, not just
+// "unknown"); the salts and infos the case uses besides the empty one and 1 .. 3.  What lies outside is "unknown" - a violation
+// just the same.
+type cands struct {
+	keys         []keyCand
+	salts, infos []int
+	// the triples that reproduced the last few values of the case, tried first (the candidates are pairwise distinguishable, so
+	// the order of the search does not change its result); nil where values are attributed from several goroutines
+	mru *[]mruHit
 }
 
-// the candidates of a case: the event ids it uses first; every other id is tried as well (so that a value under the key of
-// ANOTHER id is named, not just "unknown")
-func keyCands() []keyCand { return keyCandsFor(nil) }
+type mruHit struct {
+	k      keyCand
+	si, ii int
+}
 
-func keyCandsOf(c CCase) []keyCand {
-	seen := map[int]bool{}
-	var ids []int
-	for _, o := range c.Ops {
-		if o.EWI && o.EvID > 0 && !seen[o.EvID] {
-			seen[o.EvID] = true
+func derivedKey(w, e int) keyCand {
+	id := w*1000 + e
+	hkdfCacheMu.Lock()
+	k, ok := derivedKeyCache[id]
+	hkdfCacheMu.Unlock()
+	if !ok {
+		k = deriveEventKey(keyBytes(cWrappers[w]), evID(e))
+		hkdfCacheMu.Lock()
+		derivedKeyCache[id] = k
+		hkdfCacheMu.Unlock()
+	}
+	return keyCand{id, k}
+}
+
+func candsOf(c CCase) cands {
+	var cd cands
+	seenW, seenE, seenS, seenI := map[int]bool{}, map[int]bool{}, map[int]bool{}, map[int]bool{}
+	var ws, ids []int
+	addW := func(w int) {
+		if w > 0 && w <= nWrappers && !seenW[w] {
+			seenW[w] = true
+			ws = append(ws, w)
+		}
+	}
+	addSI := func(s, i int) {
+		if s < 0 {
+			s = 0
+		}
+		if i < 0 {
+			i = 0
+		}
+		if !seenS[s] {
+			seenS[s] = true
+			cd.salts = append(cd.salts, s)
+		}
+		if !seenI[i] {
+			seenI[i] = true
+			cd.infos = append(cd.infos, i)
+		}
+	}
+	addW(c.Init.W)
+	addSI(c.Init.S, c.Init.I)
+	ops := c.Ops
+	if c.CB {
+		e, r := cbOps(c)
+		ops = []COp{e, r}
+	}
+	for _, o := range ops {
+		addW(o.W)
+		addSI(o.S, o.I)
+		if o.EWI && o.EvID > 0 && canonEv(o.EvID) == o.EvID && !seenE[o.EvID] {
+			seenE[o.EvID] = true
 			ids = append(ids, o.EvID)
 		}
 	}
+	for k := 0; k <= 3; k++ {
+		addSI(k, k)
+		addW(k)
+	}
 	for e := 1; e < len(evIDs); e++ {
-		if !seen[e] {
+		if canonEv(e) == e && !seenE[e] {
+			seenE[e] = true
 			ids = append(ids, e)
 		}
 	}
-	// the wrappers themselves first, then per id
-	all := keyCandsFor(ids)
-	var base, derived []keyCand
-	for _, k := range all {
-		if k.id < 1000 {
-			base = append(base, k)
-		}
+	cd.mru = &[]mruHit{}
+	// the wrappers themselves first, then per event id
+	for w := 1; w <= nWrappers; w++ {
+		cd.keys = append(cd.keys, keyCand{w, keyBytes(cWrappers[w])})
 	}
 	for _, e := range ids {
-		for _, k := range all {
-			if k.id >= 1000 && k.id%1000 == e {
-				derived = append(derived, k)
-			}
+		for _, w := range ws {
+			cd.keys = append(cd.keys, derivedKey(w, e))
 		}
 	}
-	return append(base, derived...)
+	return cd
 }
 
 func attributeEnc(s string, orig []byte, keys []keyCand, ship bool) string {
@@ -311,7 +607,7 @@ func attributeEnc(s string, orig []byte, keys []keyCand, ship bool) string {
 	return "VUnknown"
 }
 
-func attributeHmac(s string, orig []byte, did int, keys []keyCand, ship bool) (string, attribution) {
+func attributeHmac(s string, orig []byte, did int, cd cands, ship bool) (string, attribution) {
 	if !strings.HasPrefix(s, "hmac-sha256:") {
 		return "VUnknown", attribution{}
 	}
@@ -319,16 +615,36 @@ func attributeHmac(s string, orig []byte, did int, keys []keyCand, ship bool) (s
 	if err != nil {
 		return "VUnknown", attribution{}
 	}
-	for _, k := range keys {
-		for si := 0; si <= poolMax; si++ { // nil and empty are the same HKDF salt: 0 stands for both
-			for ii := 0; ii <= poolMax; ii++ {
+	hit := func(k keyCand, si, ii int) (string, attribution) {
+		framed := "[]"
+		if ship {
+			framed = hexLit([]byte(s))
+		}
+		return fmt.Sprintf("(VHmac %s %s %s %s %s %s)", hc.N(k.id), bstrLit(si), bstrLit(ii), hc.N(did), hexLit(mac), framed), attribution{k.id, si, ii, true}
+	}
+	if cd.mru != nil {
+		for n, h := range *cd.mru {
+			if hmacFramedCached(h.k, h.si, h.ii, orig) == s {
+				if n > 0 {
+					copy((*cd.mru)[1:n+1], (*cd.mru)[:n])
+					(*cd.mru)[0] = h
+				}
+				return hit(h.k, h.si, h.ii)
+			}
+		}
+	}
+	for _, k := range cd.keys {
+		for _, si := range cd.salts { // nil and empty are the same HKDF salt: 0 stands for both
+			for _, ii := range cd.infos {
 				if hmacFramedCached(k, si, ii, orig) == s {
-					framed := "[]"
-					if ship {
-						framed = hexLit([]byte(s))
+					if cd.mru != nil {
+						m := append([]mruHit{{k, si, ii}}, *cd.mru...)
+						if len(m) > 6 {
+							m = m[:6]
+						}
+						*cd.mru = m
 					}
-					return fmt.Sprintf("(VHmac %s %s %s %s %s %s)", hc.N(k.id), bstrLit(si), bstrLit(ii), hc.N(did), hexLit(mac), framed),
-						attribution{k.id, si, ii, true}
+					return hit(k, si, ii)
 				}
 			}
 		}
@@ -440,7 +756,10 @@ type cresult struct {
 
 func execCrypto(c CCase) cresult {
 	ctx := context.Background()
-	keys := keyCandsOf(c)
+	cd := candsOf(c)
+	if c.CB {
+		return execCB(c, cd)
+	}
 	origSalt, origInfo := poolBytes("salt", c.Init.S), poolBytes("info", c.Init.I)
 	mk := func() *encrypt.Filter {
 		if c.ViaRotate {
@@ -466,6 +785,12 @@ func execCrypto(c CCase) cresult {
 	var res cresult
 	stepsOf := make([][]string, len(filters))
 	rotated, shipped := false, false
+	// the bytes of a value (blob / mac / framed text) go to Coq for the framing check (Base64.v) while the case's budget lasts:
+	// long plaintexts and long key ids make long blobs, and the byte literals are what a shard's evaluation time goes into
+	budget := 2500
+	if c.Gen == "special" {
+		budget = 7000
+	}
 	for n, o := range c.Ops {
 		f := filters[o.F%len(filters)]
 		var opLit, obs string
@@ -557,11 +882,19 @@ func execCrypto(c CCase) cresult {
 						orig := dataPool[dataOf[i]]
 						if isHmac(i) {
 							var a attribution
-							items[i], a = attributeHmac(s, orig, dataOf[i], keys, ship)
+							sv := ship && 2*len(s) <= budget
+							if sv {
+								budget -= 2 * len(s)
+							}
+							items[i], a = attributeHmac(s, orig, dataOf[i], cd, sv)
 							res.log = append(res.log, fmt.Sprintf("step %d value %d: hmac under key %d salt %d info %d (found %v)", n, i, a.kid, a.sid, a.iid, a.ok))
 						} else {
-							items[i] = attributeEnc(s, orig, keys, ship)
-							res.log = append(res.log, fmt.Sprintf("step %d value %d: %s", n, i, strings.SplitN(items[i], " [", 2)[0]))
+							sv := ship && 2*len(s) <= budget
+							if sv {
+								budget -= 2 * len(s)
+							}
+							items[i] = attributeEnc(s, orig, cd.keys, sv)
+							res.log = append(res.log, fmt.Sprintf("step %d value %d: %s", n, i, shortItem(items[i])))
 						}
 					}
 					obs = "(CoValues " + hc.List(items) + ")"
@@ -574,17 +907,23 @@ func execCrypto(c CCase) cresult {
 		stepsOf[o.F%len(filters)] = append(stepsOf[o.F%len(filters)], fmt.Sprintf("(%s, %s)", opLit, obs))
 	}
 	steps := stepsOf[0]
-	conc := concurrentPart(c, keys, &res)
+	conc := concurrentPart(c, cd, &res)
 	concValues += len(conc)
 	// the slices the caller configured the filters with must still hold what the caller put there
 	callerOK := string(origSalt) == string(poolBytes("salt", c.Init.S)) && string(origInfo) == string(poolBytes("info", c.Init.I))
-	res.lit = fmt.Sprintf("{| cc_id := %s; cc_init := {| f_wrap := %s; f_salt := %s; f_info := %s |};\n   cc_steps := %s;\n   cc_conc := %s; cc_cb := %s; cc_caller := %s |}",
-		hc.N(c.ID), optKeyLit(c.Init.W), initS, initI, hc.List(steps), hc.List(conc), hc.List(callbackPart(c, keys)), hc.B(callerOK))
+	res.lit = fmt.Sprintf("{| cc_id := %s; cc_init := {| f_wrap := %s; f_salt := %s; f_info := %s |};\n   cc_steps := %s;\n   cc_conc := %s; cc_cbs := []; cc_caller := %s |}",
+		hc.N(c.ID), optKeyLit(c.Init.W), initS, initI, hc.List(steps), hc.List(conc), hc.B(callerOK))
 	for i := 1; i < len(filters); i++ {
-		res.more = append(res.more, fmt.Sprintf("{| cc_id := %s; cc_init := {| f_wrap := %s; f_salt := %s; f_info := %s |};\n   cc_steps := %s;\n   cc_conc := []; cc_cb := []; cc_caller := true |}",
+		res.more = append(res.more, fmt.Sprintf("{| cc_id := %s; cc_init := {| f_wrap := %s; f_salt := %s; f_info := %s |};\n   cc_steps := %s;\n   cc_conc := []; cc_cbs := []; cc_caller := true |}",
 			hc.N(c.ID+i), optKeyLit(c.Init.W), initS, initI, hc.List(stepsOf[i])))
 	}
 	return res
+}
+
+// an attributed value without its byte literals (for the replay log)
+func shortItem(s string) string {
+	s = strings.SplitN(s, " (unhex", 2)[0]
+	return strings.SplitN(s, " [", 2)[0]
 }
 
 func hexLit(b []byte) string { return fmt.Sprintf("(unhex \"%x\")", b) }
@@ -593,10 +932,11 @@ func bstrLit2(d int) string { return "[" + hc.N(d) + "]" }
 
 // events processed by several goroutines while another one rotates wrapper, salt and info TOGETHER through (j, j, j):
 // every HMAC value must be reproduced by one (j, j, j), never by a mixture
-func concurrentPart(c CCase, keys []keyCand, res *cresult) []string {
+func concurrentPart(c CCase, cd cands, res *cresult) []string {
 	if c.Conc <= 0 {
 		return nil
 	}
+	cd.mru = nil // attributed from the processing goroutines
 	ctx := context.Background()
 	f := &encrypt.Filter{Wrapper: cWrapper(1), HmacSalt: poolBytes("salt", 1), HmacInfo: poolBytes("info", 1)}
 	stop := make(chan struct{})
@@ -633,7 +973,7 @@ func concurrentPart(c CCase, keys []keyCand, res *cresult) []string {
 		} else {
 			fs := outFields(ev.Payload)
 			for _, s := range []string{fs[2], fs[3]} {
-				_, a := attributeHmac(s, []byte("data"), 0, keys, false)
+				_, a := attributeHmac(s, []byte("data"), 0, cd, false)
 				base := a.kid
 				okID := evid == 0
 				if evid > 0 {
@@ -676,22 +1016,22 @@ func concurrentPart(c CCase, keys []keyCand, res *cresult) []string {
 			one(e, last)
 		}
 	}
-	return append(out, sharedSliceConcurrent(c, keys)...)
+	return append(out, sharedSliceConcurrent(c, cd)...)
 }
 
 // Two filters configured with the SAME salt / info slices: B processes events while A is rotated through both routes (a
 // RotateWrapper payload through Process, Filter.Rotate) to values as long as the old ones.  Every value of B must be under
 // B's own configuration (wrapper 1, salt 1, info 1), and the caller's slices must keep their bytes.  (Built with -race by the
 // C19 check: a rotation writing into the shared backing array is also a data race with B's reads.)
-func sharedSliceConcurrent(c CCase, keys []keyCand) []string {
+func sharedSliceConcurrent(c CCase, cd cands) []string {
 	var out []string
 	for _, route := range []string{"rotpayload", "rotate"} {
-		out = append(out, sharedSliceRoute(c, keys, route)...)
+		out = append(out, sharedSliceRoute(c, cd, route)...)
 	}
 	return out
 }
 
-func sharedSliceRoute(c CCase, keys []keyCand, route string) []string {
+func sharedSliceRoute(c CCase, cd cands, route string) []string {
 	ctx := context.Background()
 	salt, info := poolBytes("salt", 1), poolBytes("info", 1)
 	a := &encrypt.Filter{Wrapper: cWrapper(1), HmacSalt: salt, HmacInfo: info}
@@ -727,7 +1067,7 @@ func sharedSliceRoute(c CCase, keys []keyCand, route string) []string {
 				ev, err := b.Process(ctx, &el.Event{Type: "t", CreatedAt: fixedTime, Payload: &CPlain{E1: "x", E2: []byte("y"), H1: "data", H2: []byte("data"), E3: "z"}})
 				item := bad
 				if err == nil && ev != nil {
-					if _, at := attributeHmac(ev.Payload.(*CPlain).H1, []byte("data"), 0, keys, false); at.ok && at.kid == 1 && at.sid == 1 && at.iid == 1 {
+					if _, at := attributeHmac(ev.Payload.(*CPlain).H1, []byte("data"), 0, cd, false); at.ok && at.kid == 1 && at.sid == 1 && at.iid == 1 {
 						item = "(1%N, 1%N, 1%N)"
 					}
 				}
@@ -746,10 +1086,84 @@ func sharedSliceRoute(c CCase, keys []keyCand, route string) []string {
 	return out
 }
 
+// a salt / info: nil and empty (non-nil) one time in eight each, otherwise a value of the pool (half of it the length alphabet)
+func (g *gen) comp() int {
+	switch x := g.r.Intn(8); x {
+	case 0:
+		return -1
+	case 1:
+		return 0
+	}
+	return 1 + g.r.Intn(poolMax)
+}
+
+// an event that rotates the filter from its own Tags() callback: any initial state (salt / info absent, empty or set; now and
+// then no wrapper), any rotation through either route, with and without per-event wrapper info, every shape
+func (g *gen) cbCase() CCase {
+	r := g.r
+	c := CCase{Gen: "callback-rotation", CB: true, Init: COp{W: 1 + r.Intn(nWrappers), S: g.comp(), I: g.comp()}}
+	if r.Chance(1, 12) {
+		c.Init.W = 0
+	}
+	if r.Chance(1, 2) { // absent / empty on the filter: what a fallback resolved late would pick up
+		c.Init.S = -r.Intn(2)
+	}
+	if r.Chance(1, 2) {
+		c.Init.I = -r.Intn(2)
+	}
+	ev := COp{K: "event", S: -1, I: -1, Sh: []string{"mid", "top", "map"}[r.Intn(3)]}
+	for i := 0; i < 5; i++ {
+		ev.Data = append(ev.Data, r.Intn(len(dataPool)))
+	}
+	if r.Chance(2, 3) {
+		ev.EWI = true
+		ev.EvID = 1 + r.Intn(len(evIDs)-1)
+		if r.Chance(1, 12) {
+			ev.EvID = 0
+		}
+		if r.Chance(1, 3) {
+			ev.S = g.comp()
+		}
+		if r.Chance(1, 3) {
+			ev.I = g.comp()
+		}
+	}
+	rot := COp{K: []string{"rotate", "rotpayload"}[r.Intn(2)], W: r.Intn(nWrappers + 1), S: g.comp(), I: g.comp()}
+	if r.Chance(1, 2) {
+		rot.W = 0
+	}
+	c.Ops = []COp{ev, rot}
+	return c
+}
+
+// the grid around the class "the filter has no salt / info of its own": initial salt and info absent / empty / set, the rotation
+// introducing, emptying or changing salt, info and wrapper (together and one at a time, a 65-byte value included), events
+// without wrapper info, with an event id only, and with a salt or an info of their own; shapes and routes in turn
+func cbGrid() []CCase {
+	var out []CCase
+	rots := [][3]int{{2, 2, 2}, {0, 2, -1}, {0, -1, 2}, {2, 0, 0}, {2, -1, -1}, {0, 10, 10}}
+	evs := []COp{{S: -1, I: -1}, {EWI: true, EvID: 1, S: -1, I: -1}, {EWI: true, EvID: 2, S: 3, I: -1}, {EWI: true, EvID: 3, S: -1, I: 3}}
+	n := 0
+	for _, is := range []int{-1, 0, 1} {
+		for _, ii := range []int{-1, 0, 1} {
+			for _, rt := range rots {
+				for _, e := range evs {
+					ev := e
+					ev.K, ev.Sh, ev.Data = "event", []string{"mid", "top", "map"}[n%3], []int{1, 2, 9, 4, 1}
+					rot := COp{K: []string{"rotate", "rotpayload"}[(n/3)%2], W: rt[0], S: rt[1], I: rt[2]}
+					out = append(out, CCase{Gen: "callback-rotation", CB: true, Init: COp{W: 1, S: is, I: ii}, Ops: []COp{ev, rot}})
+					n++
+				}
+			}
+		}
+	}
+	return out
+}
+
 func (g *gen) cryptoCase(n int) CCase {
 	r := g.r
 	pick := func() int { return r.Intn(len(dataPool)) }
-	comp := func() int { return r.Intn(poolMax+2) - 1 } // -1 nil, 0 empty, 1..5
+	comp := func() int { return g.comp() }
 	c := CCase{Gen: "random", Init: COp{W: r.Intn(nWrappers + 1), S: comp(), I: comp()}}
 	if r.Chance(4, 5) && c.Init.W == 0 {
 		c.Init.W = 1 + r.Intn(nWrappers)
@@ -875,12 +1289,36 @@ func cryptoSpecials() []CCase {
 	}
 	out = append(out, CCase{Gen: "concurrent", Init: COp{W: 1, S: 1, I: 1}, Conc: 150})
 	out = append(out, CCase{Gen: "callback-rotation", Init: COp{W: 1, S: 1, I: 1}, CB: true})
+	out = append(out, cbGrid()...)
+	// the length alphabet: salt and info (on the filter through Rotate and through a rotation payload, and on the event), event id
+	// and key id of 1, 63, 64, 65, 127, 128, 129 and 1100 bytes; consecutive values share every byte of the shorter one, so each
+	// rotation from one to the next must change the digests of the same data
+	{
+		c := CCase{Gen: "length-alphabet", Init: COp{W: 1, S: 9, I: 9}}
+		ev := COp{K: "event", S: -1, I: -1, Data: all(1)}
+		c.Ops = append(c.Ops, ev)
+		for j := range lenAlphabet {
+			c.Ops = append(c.Ops, COp{K: "rotate", S: 7 + j, I: -1}, ev, COp{K: "rotpayload", S: -1, I: 7 + j}, ev,
+				COp{K: "event", EWI: true, EvID: 1, S: -1, I: -1, Data: all(1)},
+				COp{K: "event", EWI: true, EvID: len(evIDs) - len(lenAlphabet) + j, S: 7 + (j+1)%len(lenAlphabet), I: 7 + (j+2)%len(lenAlphabet), Data: all(1)},
+				COp{K: "rotate", W: 8 + j, S: -1, I: -1}, ev)
+		}
+		out = append(out, c)
+		// a filter CONFIGURED with long values, events with long values of their own, rotated to the neighbours that share a prefix
+		for j := range lenAlphabet {
+			k := (j + 1) % len(lenAlphabet)
+			out = append(out, CCase{Gen: "length-alphabet", Init: COp{W: 8 + j, S: 7 + j, I: 7 + k}, Ops: []COp{ev,
+				{K: "event", EWI: true, EvID: len(evIDs) - 1 - j, S: 7 + k, I: 7 + j, Data: all(3)}, {K: "event", SL: true, S: -1, I: -1, Data: []int{len(dataPool) - 1 - j, 1, len(dataPool) - 1 - k}},
+				{K: "rotpayload", W: 8 + k, S: 7 + k, I: 7 + j}, ev, {K: "event", EWI: true, EvID: len(evIDs) - 1 - j, S: -1, I: -1, Data: all(3)},
+				{K: "event", TM: true, S: -1, I: -1, Data: all(len(dataPool) - 1 - j)}}})
+		}
+	}
 	return out
 }
 
 func mainCrypto(out, prefix string, perShard, n int, corpus string, concOnly bool) {
 	initDataPool()
-	cf := &hc.CaseFile{Dir: out, Prefix: prefix, PerShard: perShard / 5, Type: "list ccase",
+	cf := &hc.CaseFile{Dir: out, Prefix: prefix, PerShard: perShard * 68 / 250, Type: "list ccase",
 		Header: "From Coq Require Import List NArith String.\nFrom Verif Require Import Base64 Crypto Run_Crypto.\nImport ListNotations.\nOpen Scope string_scope.\nOpen Scope list_scope.",
 		Footer: "Definition M := Eval vm_compute in mismatches cases.\nPrint M."}
 	side, err := os.Create(out + "/" + prefix + ".jsonl")
@@ -913,6 +1351,17 @@ func mainCrypto(out, prefix string, perShard, n int, corpus string, concOnly boo
 		}
 		stats["cases"]++
 		stats["gen:"+c.Gen]++
+		if c.CB {
+			e, rot := cbOps(c)
+			stats["cb:shape:"+e.Sh]++
+			stats["cb:route:"+rot.K]++
+			if e.EWI {
+				stats["cb:event-with-wrapper-info"]++
+			}
+			if c.Init.S <= 0 || c.Init.I <= 0 {
+				stats["cb:filter-salt-or-info-absent-or-empty"]++
+			}
+		}
 		for _, o := range c.Ops {
 			stats["op:"+o.K]++
 			if o.K == "event" && o.EWI {
@@ -948,18 +1397,40 @@ func mainCrypto(out, prefix string, perShard, n int, corpus string, concOnly boo
 		n = 0
 	}
 	if n > 0 {
+		// the fixed scenarios that ship many bytes to Coq are spread over the shards (one every few random histories): a shard's
+		// evaluation time goes into its byte literals
+		var heavy []CCase
 		for _, c := range cryptoSpecials() {
-			emit(c)
+			if c.CB {
+				emit(c)
+			} else {
+				heavy = append(heavy, c)
+			}
 		}
 		g := &gen{r: hc.NewRand(hc.Seed()).Fork()}
+		every := n / (len(heavy) + 1)
+		if every < 1 {
+			every = 1
+		}
 		for i := 0; i < n; i++ {
+			if i%every == 0 && len(heavy) > 0 {
+				emit(heavy[0])
+				heavy = heavy[1:]
+			}
 			emit(g.cryptoCase(4 + g.r.Intn(9)))
+			if i%4 == 0 {
+				emit(g.cbCase())
+			}
+		}
+		for _, c := range heavy {
+			emit(c)
 		}
 	}
 	cf.Close()
 	side.Close()
 	summary := map[string]interface{}{"stats": stats, "files": cf.Files, "cases": cf.Total, "distinct_nontrivial": nontriv, "panics": panics, "seed": hc.Seed(), "values_under_concurrent_rotation": concValues,
-		"data_pool": "empty, 1 byte, non-UTF-8 with NUL, 300 bytes, UTF-8, texts that look like filtered values"}
+		"data_pool":       "empty, 1 byte, non-UTF-8 with NUL, 300 bytes, UTF-8, texts that look like filtered values, 63 / 64 / 65 / 127 / 128 / 129 / 1100 bytes",
+		"length_alphabet": "salt, info, event id, key id, plaintext: 0, 1, 63, 64, 65, 127, 128, 129, 1100 bytes; the long values of a kind are prefixes of one stream (shared 64- and 128-byte prefixes)"}
 	js, _ := json.MarshalIndent(summary, "", " ")
 	os.WriteFile(out+"/"+prefix+"_summary.json", js, 0o644)
 	fmt.Printf("encrypth -crypto: %d cases in %d files, %d panics\n", cf.Total, len(cf.Files), len(panics))
@@ -985,7 +1456,8 @@ func replayCrypto(data []byte) {
 		fmt.Println("PANIC:", p)
 	}
 	if w.Case.CB {
-		fmt.Println("event with per-event wrapper info (nil salt / info) whose Tags() rotates the filter from (w1, salt-1, info-1) to (w2, salt-2, info-2):")
-		fmt.Println("  (base of the derived wrapper, salt, info) per HMAC value:", callbackPart(w.Case, keyCands()))
+		e, rot := cbOps(w.Case)
+		fmt.Printf("the event %+v rotates the filter from its own Tags() callback: %+v\n", e, rot)
+		fmt.Println("(an event WITH wrapper info must be under the key in force at its start throughout; a plain one under the filter state each value is produced in)")
 	}
 }
